@@ -226,10 +226,13 @@ def build():
                                                  z3.Length(sstr(c.pre.attr(S.at(cs, jq), 'return_type'))) == 0)), patterns=[S.at(cs, jq)])
 
     def inner_inv(c):
+        """matched <=> some candidate seen so far matches (stated so that it holds whether the loop stops at the first match or not)"""
         cs = c.pre.list(c.p.candidate_rules)
-        return z3.And(z3.Not(S.bval(c.l.matched)),
-                      S.forall([rq], z3.Implies(z3.And(rq >= 0, rq < c.i), z3.Not(method_match(c.pre, S.at(cs, rq), c.l.scope))),
-                                patterns=[S.at(cs, rq)]))
+        return z3.And(z3.Implies(S.bval(c.l.matched), z3.Exists([rq], z3.And(rq >= 0, rq < c.i, method_match(c.pre, S.at(cs, rq), c.l.scope)),
+                                                                patterns=[S.at(cs, rq)])),
+                      z3.Implies(z3.Not(S.bval(c.l.matched)),
+                                 S.forall([rq], z3.Implies(z3.And(rq >= 0, rq < c.i), z3.Not(method_match(c.pre, S.at(cs, rq), c.l.scope))),
+                                          patterns=[S.at(cs, rq)])))
 
     def untouched(c, fields):
         """pre-existing objects keep their content in these heap fields"""
